@@ -140,6 +140,13 @@ impl Space for Compiled {
             pair!(out, n, "ZonedDateTime::until(equal operands)", attrs, z.until(&same, st), z.until_with_provider(&same, st, &p));
             pair!(out, n, "ZonedDateTime::since(equal operands)", attrs, z.since(&same, st), z.since_with_provider(&same, st, &p));
         }
+        // directional and half modes with a granularity that really rounds (since mirrors the mode, until does not)
+        for mode in [temporal_rs::options::RoundingMode::Ceil, temporal_rs::options::RoundingMode::Floor, temporal_rs::options::RoundingMode::HalfCeil, temporal_rs::options::RoundingMode::HalfFloor, temporal_rs::options::RoundingMode::Expand] {
+            for st in [diff(Some(Unit::Hour), Some(Unit::Hour), Some(mode), None), diff(None, Some(Unit::Minute), Some(mode), Some(15)), diff(Some(Unit::Month), Some(Unit::Day), Some(mode), Some(2))] {
+                pair!(out, n, "ZonedDateTime::until", attrs, z.until(&z2, st), z.until_with_provider(&z2, st, &p));
+                pair!(out, n, "ZonedDateTime::since", attrs, z.since(&z2, st), z.since_with_provider(&z2, st, &p));
+            }
+        }
         for st in [diff(Some(Unit::Hour), Some(Unit::Hour), None, Some(7)), diff(None, Some(Unit::Minute), None, Some(60)), diff(Some(Unit::Minute), Some(Unit::Day), None, None)] {
             let same = z.clone();
             pair!(out, n, "ZonedDateTime::until(equal operands)", attrs, z.until(&same, st), z.until_with_provider(&same, st, &p));
@@ -201,8 +208,15 @@ impl Space for Compiled {
             }
         }
         // Now::* read the clock themselves: sandwiched between two core readings
-        if i == 0 {
-            for tzn in [None, Some(tz.clone())] {
+        if ix[0] == 0 && ix[2] == 0 || i == 0 {
+            let mut now_zones = vec![None, Some(tz.clone())];
+            if ix[0] == 0 && ix[2] == 0 {
+                // fixed offsets of both signs with a minute part (the wrappers may treat them apart from named zones)
+                for o in ["-03:30", "+05:45", "-00:30", "-11:59", "+14:00"] {
+                    now_zones.push(Some(TimeZone::try_from_str(o).expect("offset zone")));
+                }
+            }
+            for tzn in now_zones {
                 for which in 0..3 {
                     let name = ["Now::plain_datetime_iso", "Now::plain_date_iso", "Now::plain_time_iso"][which];
                     n.insert(name.to_string());
